@@ -235,11 +235,20 @@ def expectation(req, eapi, W, ED, before):
             status = "reject"
     if blocked:
         status = "reject"
+    elif status == "ok":
+        for rel, v in res.entries.items():
+            e = before.get(rel)
+            if v["type"] == "sym" and e is not None:
+                status = "either"  # replacing an existing entry by a symlink: overwrite or fail, PMS is silent
+            elif v["type"] == "dir" and e is not None and e["type"] != "dir":
+                status = "either"
+            elif v["type"] == "file" and not os.path.isfile(v["src"]):
+                status = "either"  # fifo / dangling link in the source tree
     return status, res.entries, external
 
 
 def effect_present(entries, ED):
-    """types of the expected entries only (placement details are C33's)"""
+    """types of the expected entries and link targets only (placement details are C33's)"""
     missing = []
     for rel, spec in entries.items():
         t = spec["type"]
@@ -250,7 +259,7 @@ def effect_present(entries, ED):
             continue
         p = os.path.join(ED, rel)
         ok = {"file": os.path.isfile(p) and not os.path.islink(p), "dir": os.path.isdir(p) and not os.path.islink(p),
-              "sym": os.path.islink(p), "hardlink": os.path.lexists(p)}[t]
+              "sym": os.path.islink(p) and os.readlink(p) == spec["target"], "hardlink": os.path.lexists(p)}[t]
         if not ok:
             missing.append(rel)
     return missing
@@ -343,6 +352,12 @@ def judge(ctx, case, idx, w, status, entries, external, fault, ok, code, msg, fa
             ctx.violation(f"failure-without-message:{h}", case, f"request #{idx}: code={code}")
         return
     if status == "either":
+        # PMS leaves open whether this fails; a reported success still has to be true
+        if ok:
+            missing = effect_present(entries or {}, w.ED)
+            if missing:
+                ctx.violation(f"success-without-effect:{h}{ext}:{req.get('kind')}", case,
+                              f"request #{idx}: reply 0 but not installed as requested: {missing[:3]}")
         return
     if status == "reject":
         if ok:
@@ -794,6 +809,15 @@ def _src():
     spec.append(H33._file("d/in.txt", 20))
     spec.append({"path": "d/sub", "type": "dir"})
     spec.append(H33._file("d/sub/deep.txt", 21))
+    # trees with symlinks (to a directory, to a file) and a special file, for recursive installs
+    spec += [{"path": "t", "type": "dir"}, H33._file("t/f.txt", 30), {"path": "t/sub", "type": "dir"},
+             H33._file("t/sub/g.txt", 31), {"path": "t/dl", "type": "sym", "target": "sub"},
+             {"path": "t/fl", "type": "sym", "target": "f.txt"}]
+    spec += [{"path": "u", "type": "dir"}, H33._file("u/h.txt", 32), {"path": "u/other", "type": "dir"},
+             H33._file("u/other/i.txt", 33), {"path": "u/dl", "type": "sym", "target": "other"},
+             {"path": "u/sub", "type": "sym", "target": "other"}]
+    spec += [{"path": "tf", "type": "dir"}, H33._file("tf/a.txt", 34), {"path": "tf/pipe", "type": "fifo"},
+             H33._file("tf/z.txt", 35)]
     return spec
 
 
@@ -801,7 +825,7 @@ def _src():
 def request(draw, allow_fault=True):
     kind = draw(st.sampled_from([
         # (hypothesis favours early elements: the expensive-to-reach classes come first)
-        "blocked", "unpack_bad", "ext_ok", "ext_fail", "ok_files", "ok_files", "ok_files", "ok_files", "missing", "missing", "dir_no_r", "noman", "ext_ok", "ext_fail",
+        "rtree", "blocked", "unpack_bad", "rtree", "ext_ok", "ext_fail", "ok_files", "ok_files", "ok_files", "ok_files", "missing", "missing", "dir_no_r", "noman", "ext_ok", "ext_fail",
         "dirext_ok", "dirext_fail", "dodir", "dodir", "keepdir", "keepdir", "dosym", "dosym", "dosym_bad", "recursive",
         "recursive", "noargs", "badopt", "docompress", "dostrip", "eapply_ok", "eapply_bad", "eapply_missing",
         "filter_env", "blocked", "blocked", "blocked", "unpack_ok", "unpack_bad", "unpack_bad", "unpack_missing"]))
@@ -864,6 +888,12 @@ def request(draw, allow_fault=True):
         h = "doins"
         env["insinto"] = "/usr/share/r"
         args = ["-r", draw(st.sampled_from(["d", "d/", "d/.", "./d"]))] + (["a.txt"] if draw(st.booleans()) else [])
+    elif kind == "rtree":
+        # recursive installs of trees holding symlinks / a fifo into a few shared destinations: collisions with what
+        # earlier requests left there, failures inside the recursive walk, and retries on the same helper
+        h = "doins"
+        env["insinto"] = draw(st.sampled_from(["/usr/share/rt", "/opt/rt x"]))
+        args = ["-r", draw(st.sampled_from(["t/.", "u/.", "tf", "t", "u", "tf/.", "d/."]))]
     elif kind == "noargs":
         h = draw(st.sampled_from(["doins", "dodoc", "dodir", "doman"]))
     elif kind == "badopt":
@@ -900,7 +930,7 @@ def request(draw, allow_fault=True):
     r = {"helper": h, "env": env, "args": args, "nonfatal": nonfatal, "kind": kind, "fault": None}
     if kind == "blocked":
         return [blocker, r]
-    if allow_fault and kind in ("ok_files", "dodir", "keepdir", "dosym", "recursive") and draw(st.integers(0, 9)) < 4:
+    if allow_fault and kind in ("ok_files", "dodir", "keepdir", "dosym", "recursive", "rtree") and draw(st.integers(0, 9)) < 4:
         mod, fn = draw(st.sampled_from(FAULTS))
         r["fault"] = {"mod": mod, "fn": fn, "nth": draw(st.integers(1, 3))}
     return [r]
@@ -911,6 +941,10 @@ def stream(draw, layer="inproc"):
     eapi = str(draw(st.sampled_from([0, 4, 6, 7, 8, 8])))
     n = draw(st.integers(2, 5 if layer != "bash" else 4))
     reqs = [r for _ in range(n) for r in draw(request(allow_fault=(layer == "inproc")))]
+    if eapi == "0":  # symlinks in doins trees are undefined before EAPI 4: plain tree instead
+        for r in reqs:
+            if r["kind"] == "rtree":
+                r["args"] = ["-r", "d/."]
     if eapi in ("0", "4"):  # eapply exists from EAPI 6 on
         reqs = [r for r in reqs if r["helper"] != "eapply"]
         if not reqs:
@@ -933,7 +967,7 @@ def nontrivial(case):
     kinds = [r["kind"] for r in case["requests"]]
     if any(r.get("fault") for r in case["requests"]):
         return True
-    if any(k in ("ext_ok", "dirext_ok") for k in kinds):
+    if any(k in ("ext_ok", "dirext_ok", "rtree") for k in kinds):
         return True
     return any(k in failing for k in kinds)
 
@@ -946,6 +980,14 @@ def run_stream(ctx, case, record=True):
                             for k in kinds[:-1])
         if failing_first:
             cl.append("request_after_failure")
+        rt = [i for i, k in enumerate(kinds) if k == "rtree"]
+        if len(rt) >= 2:
+            cl.append("rtree_repeated")
+            dests = [case["requests"][i]["env"].get("insinto") for i in rt]
+            if len(set(dests)) < len(dests):
+                cl.append("rtree_same_destination")
+        if any(case["requests"][i]["args"][1].startswith("tf") for i in rt) and rt and rt[-1] != rt[0]:
+            cl.append("rtree_after_special_file")
         ctx.case(case, nontrivial=nontrivial(case), classes=cl)
     old_umask = os.umask(0o022)
     try:
